@@ -23,6 +23,15 @@ theorem table_is_rank_plus_one :
     Ndim.table.all (fun (c, ps) => ps.all (fun (p, nd) => lookup2 Ndim.singleRank c p = some (nd - 1) && nd ≥ 1)) = true := by
   decide
 
+/-- (added by the audit) `table_is_rank_plus_one` is an `all` over the regenerated table and would hold vacuously for an
+empty table or empty parameter lists: the ten public source classes are all present, each with a non-empty parameter
+list, and the rank table lists exactly the same classes and parameters -/
+theorem table_covers_source_classes :
+    ["Circle", "Cuboid", "Cylinder", "CylinderSegment", "Dipole", "Polyline", "Sphere", "Tetrahedron", "Triangle",
+      "TriangularMesh"].all (fun c => match Ndim.table.lookup c with | some ps => !ps.isEmpty | none => false) = true ∧
+    Ndim.table.map (fun r => (r.1, r.2.map Prod.fst)) = Ndim.singleRank.map (fun r => (r.1, r.2.map Prod.fst)) := by
+  decide
+
 /-- with such an entry, a single value is tiled and a stack of values is taken per instance —
 never the other way round -/
 theorem classification_correct (r : Nat) :
